@@ -110,9 +110,10 @@ META = {
         "derivatives (used to evaluate the symbolic terms in the cross-check, so the stand-in is compared with real autograd on every run)",
         "fresh-oracle mode (volume obligations): the k-th backward writes fresh variables G<k>[i] standing for ∇logp at the "
         "position of the k-th model call; the position is logged and compared with the integrator's `params` local",
-        "MOMENTUM DRAW STUB: `Normal` and `MultivariateNormal` in the namespace of torchtree.inference.hmc.hamiltonian are "
-        "replaced for one scenario by recorders whose `.sample()` returns the next symbolic momentum (an arbitrary real "
-        "vector); the distribution parameters they receive are claims (N(0,M))",
+        "MOMENTUM DRAW (modular): at its call sites `Hamiltonian.sample_momentum` is replaced for one scenario by its contract - it returns "
+        "the next symbolic momentum (an arbitrary real vector) and the mass matrix it is asked for is a claim; the BODY of the real "
+        "sample_momentum is checked against the same contract (a draw of N(0,M)) by C16.momentum.draw: with the standard-normal primitives "
+        "of torch (randn, randn_like, normal, Tensor.normal_) feeding a chosen vector z the result is A·z, A·Aᵀ = M (sampled M and z; bounded)",
         "observation only: `sys.settrace` line trace reading the locals `params`/`momentum` of the real integrator frame; a "
         "LeapfrogIntegrator subclass whose __call__ is `super().__call__` plus logging of arguments and result",
         "failure injection: `_Target._call` returns a real NaN tensor at a chosen call / its backward writes NaN gradients",
@@ -1053,6 +1054,23 @@ class _Draws:
         self.env, self.momenta = env, momenta
         self.log = []    # (kind, loc, scale_or_cov, position at draw time)
 
+    def sampler(self):
+        """stands for `Hamiltonian.sample_momentum` at its call sites (modular: the callers are checked against its contract
+        "returns a draw of N(0, mass_matrix)"; the body is checked against that contract by C16.momentum.draw)"""
+        outer = self
+
+        def sample_momentum(self_, mass_matrix):
+            t = len(outer.log)
+            if t >= len(outer.momenta):
+                if t >= 12:
+                    raise Undecided("more than 12 momentum draws inside one _step")
+                # unplanned retry: hand out a further arbitrary momentum; the draw count is a claim and fails
+                outer.momenta.append(outer.env.mk.real("p_unplanned%d" % t, (outer.env.d,), -2.0, 2.0))
+            outer.log.append(("call", None, mass_matrix, outer.env.position()))
+            outer.env.model.new_trial(t)
+            return outer.momenta[t]
+        return sample_momentum
+
     def make(self, kind):
         outer = self
 
@@ -1186,7 +1204,7 @@ def scn_hastings(d, sizes, rank, steps, plan, integ_kind="real", spec="inverse",
             kw = {"divergence_threshold": thr}
         else:
             kw = {}
-        with _patched(tt["ham_mod"], Normal=draws.make("normal"), MultivariateNormal=draws.make("mvn")), \
+        with _patched(tt["ham_mod"].Hamiltonian, sample_momentum=draws.sampler()), \
                 _patched(tt["op_mod"], **patches), contextlib.redirect_stdout(sink):
             op = tt["op_mod"].HMCOperator("hmc", env.model, env.params, integ, mass, 1.0, 0.8, [], **kw)
             with torch.no_grad():
@@ -1220,17 +1238,20 @@ def scn_hastings(d, sizes, rank, steps, plan, integ_kind="real", spec="inverse",
         cl = [("true", "number_of_momentum_draws", len(draws.log) == n_trials, "%d draws, %d planned" % (len(draws.log), n_trials))]
         for t, (kind, loc, par, pos) in enumerate(draws.log):
             cl.append(("eq", "trial%d_starts_from_saved_state" % t, pos, q0))
-        kind, loc, par, _ = draws.log[0]
-        cl.append(("true", "draw_kind_matches_rank", kind == ("normal" if rank == "diag" else "mvn")))
-        cl.append(("eq", "draw_mean_zero", loc, [0.0] * d))
-        if rank == "diag":
-            cl.append(("eq", "draw_variance_is_M", [x * x for x in _vec(par)], Mspec))
-        else:
-            cl.append(("eq", "draw_covariance_is_M", [x for r in _mat(par) for x in r], [x for r in Mspec for x in r]))
+        for t, (_, _, par, _) in enumerate(draws.log):
+            # precondition side of the callee's contract: every draw is requested for the operator's mass matrix
+            if rank == "diag":
+                cl.append(("eq", "draw%d_requested_for_M" % t, _vec(par), Mspec))
+            else:
+                cl.append(("eq", "draw%d_requested_for_M" % t, [x for r in _mat(par) for x in r], [x for r in Mspec for x in r]))
         for t in range(min(len(draws.log), n_trials)):
             cl.append(("eq", "drawn_momentum%d_not_mutated" % t, momenta[t], mom_in[t]))
         if inv == "stub":
-            cl.append(("true", "inverse_taken_of_M", len(inv_log) >= 1 and all(m is env.M for m in inv_log), "%d calls" % len(inv_log)))
+            if not inv_log:
+                # the operator obtains M⁻¹ some other way than torch.inverse: the assumed callee contract has no call site, the
+                # modular argument does not apply (not a refutation; the d<=3 obligations run the real inverse symbolically)
+                raise Undecided("the operator never calls torch.inverse: the modular contract for M⁻¹ has no call site")
+            cl.append(("true", "inverse_taken_of_M", all(m is env.M for m in inv_log), "%d calls" % len(inv_log)))
         cl.append(("true", "requires_grad_cleared", flags))
         cl.append(("eq", "reject_restores_saved_state", q_rejected, q0))
         if all_fail:
@@ -1345,6 +1366,122 @@ def ob_mass_invariant_adaptor(rank):
               clause="the kinetic energy uses the inverse of the mass matrix the momentum is drawn with (after the mass-matrix adaptor ran)", funcs=FUNCS)
 
 
+class _ZFeed:
+    """feeds a chosen vector z to torch's standard-normal primitives (randn, randn_like, normal, Tensor.normal_) for the duration of one
+    call, so that a Gaussian draw becomes the deterministic affine image of z that it computes"""
+
+    def __init__(self, z):
+        self.z, self.used = list(z), 0
+
+    def take(self, shape, dtype):
+        n = int(np.prod(shape)) if len(shape) else 1
+        if self.used + n > len(self.z):
+            self.z += [0.0] * (self.used + n - len(self.z))
+        v = torch.tensor(self.z[self.used:self.used + n], dtype=torch.float64).reshape(tuple(shape))
+        self.used += n
+        return v.to(dtype or torch.get_default_dtype())
+
+    @contextlib.contextmanager
+    def installed(self):
+        feed = self
+        o_randn, o_like, o_normal, o_inplace = torch.randn, torch.randn_like, torch.normal, torch.Tensor.normal_
+
+        def randn(*size, dtype=None, **kw):
+            size = tuple(size[0]) if len(size) == 1 and isinstance(size[0], (tuple, list, torch.Size)) else size
+            return feed.take(size, dtype)
+
+        def randn_like(t, dtype=None, **kw):
+            return feed.take(tuple(t.shape), dtype or t.dtype)
+
+        def normal(mean=0.0, std=1.0, size=None, dtype=None, **kw):
+            if isinstance(mean, torch.Tensor) or isinstance(std, torch.Tensor):
+                shape = torch.broadcast_shapes(tuple(getattr(mean, "shape", ())), tuple(getattr(std, "shape", ())))
+                dt = mean.dtype if isinstance(mean, torch.Tensor) else std.dtype
+            else:
+                shape, dt = tuple(size), dtype
+            return mean + std * feed.take(shape, dt)
+
+        def normal_(t, mean=0.0, std=1.0, **kw):
+            with torch.no_grad():
+                t.copy_(mean + std * feed.take(tuple(t.shape), t.dtype))
+            return t
+        torch.randn, torch.randn_like, torch.normal, torch.Tensor.normal_ = randn, randn_like, normal, normal_
+        try:
+            yield
+        finally:
+            torch.randn, torch.randn_like, torch.normal, torch.Tensor.normal_ = o_randn, o_like, o_normal, o_inplace
+
+
+def _momentum_map(M):
+    """(A, n_z): the real Hamiltonian.sample_momentum(M) as the linear image A z of the standard-normal numbers z it consumes"""
+    tt = _tt()
+    ham = tt["ham_mod"].Hamiltonian("h", (lambda: torch.tensor(0.0)))
+
+    def draw(z):
+        feed = _ZFeed(z)
+        with feed.installed():
+            p = ham.sample_momentum(M)
+        return p, feed.used
+    p0, n_z = draw([])
+    if n_z == 0:
+        raise Undecided("sample_momentum consumed none of the standard-normal primitives under observation (randn, randn_like, normal, Tensor.normal_)")
+    cols = []
+    for j in range(n_z):
+        pj, _ = draw([1.0 if i == j else 0.0 for i in range(n_z)])
+        cols.append(pj - p0)
+    return p0, torch.stack(cols, -1), n_z, draw
+
+
+def ob_momentum_draw(rank):
+    """body of Hamiltonian.sample_momentum against the contract its callers assume: a draw of N(0, M)"""
+    def body():
+        g = torch.Generator().manual_seed(11)
+        n = 0
+        for d in (1, 2, 3, 5):
+            for rep in range(3):
+                if rank == "diag":
+                    M = torch.rand(d, generator=g, dtype=torch.float64) * 3 + 0.2
+                    Mfull = torch.diag(M)
+                else:
+                    B = torch.randn(d, d, generator=g, dtype=torch.float64)
+                    M = B @ B.T + 0.3 * torch.eye(d, dtype=torch.float64)
+                    if rep == 2:
+                        M = torch.diag(torch.diagonal(M))     # a dense matrix that happens to be diagonal
+                    Mfull = M
+                p0, A, n_z, draw = _momentum_map(M)
+                args = {"rank": rank, "d": d, "M": M.tolist()}
+                rp = {"kind": "custom", "contract": "C16", "func": "replay_momentum_draw", "args": {"rank": rank}}
+                if tuple(p0.shape) != (d,):
+                    raise Refuted("sample_momentum(%s M of size %d) returns shape %s" % (rank, d, tuple(p0.shape)), witness=args, replay=rp, confirmed=True)
+                if p0.dtype != M.dtype:
+                    raise Refuted("sample_momentum returns dtype %s for a %s mass matrix" % (p0.dtype, M.dtype), witness=args, replay=rp, confirmed=True)
+                if not torch.allclose(p0, torch.zeros(d, dtype=p0.dtype), atol=1e-12):
+                    raise Refuted("momentum draw has mean %s, not zero (%s, d=%d)" % (p0.tolist(), rank, d), witness=args, replay=rp, confirmed=True)
+                z = torch.randn(n_z, generator=g, dtype=torch.float64)
+                pz, _ = draw(z.tolist())
+                if not torch.allclose(pz, A @ z, rtol=1e-9, atol=1e-12):
+                    raise Undecided("sample_momentum is not linear in the standard-normal numbers it consumes: the covariance cannot be read off")
+                cov = A @ A.T
+                if not torch.allclose(cov, Mfull, rtol=1e-8, atol=1e-10):
+                    args["covariance"] = cov.tolist()
+                    raise Refuted("the momentum is drawn as A·z (z standard normal) with A·Aᵀ = %s, but the mass matrix the kinetic energy and the Hastings term use is %s "
+                                  "(%s, d=%d): K(p0) − K(p1) is then not the log ratio of the reverse to the forward proposal density" % (cov.tolist(), Mfull.tolist(), rank, d),
+                                  witness=args, replay=rp, confirmed=True)
+                n += 1
+        return {"backend": "concrete (linear map of the draw)", "cases": n, "bounded": "d in {1,2,3,5}, 3 sampled matrices each",
+                "statement": "real Hamiltonian.sample_momentum(M), %s M: with torch's standard-normal primitives feeding z the result is A·z with zero offset and A·Aᵀ = M, "
+                             "i.e. the draw is N(0,M), the density whose ratio the Hastings term K(p0) − K(p1) stands for" % rank}
+    return Ob("C16.momentum.draw[%s]" % rank, "B", body, clause="the momentum is drawn from N(0,M) with the mass matrix the kinetic energy uses", funcs=FUNCS, timeout=120)
+
+
+def replay_momentum_draw(args):
+    try:
+        ob_momentum_draw(args["rank"]).fn()
+    except Refuted as e:
+        return False, e.detail
+    return True, "held"
+
+
 def replay_mass_invariant_adaptor(args):
     try:
         ob_mass_invariant_adaptor(args["rank"]).fn()
@@ -1384,7 +1521,7 @@ def scn_mcmc(d, sizes, rank, steps, plan):
         sink = io.StringIO()
         old_sig = signal.getsignal(signal.SIGINT)
         try:
-            with _patched(tt["ham_mod"], Normal=draws.make("normal"), MultivariateNormal=draws.make("mvn")), \
+            with _patched(tt["ham_mod"].Hamiltonian, sample_momentum=draws.sampler()), \
                     _patched(mcmc_mod, torch=_TorchProxy(rand=lambda *a, **k: u)), contextlib.redirect_stdout(sink):
                 op = tt["op_mod"].HMCOperator("hmc", env.model, env.params, integ, mass, 1.0, 0.8, [],
                                               divergence_threshold=thr, disable_adaptation=True)
@@ -1651,6 +1788,7 @@ def obligations(tier, seed):
                     "the kinetic energy uses the inverse of the mass matrix the momentum is drawn with", d)
     for rank in ranks:
         obs.append(ob_mass_invariant_adaptor(rank))
+        obs.append(ob_momentum_draw(rank))
     # ---- hastings
     for d in (1, 2, 3):
         for rank in ranks:
